@@ -50,6 +50,13 @@ def run(tier):
     quick = tier == "quick"
     dev = 3 if quick else 4
     jobs = []
+    # The histories run on the exact-size ledger allocator: every execution's memory is released when it ends (also when the
+    # fatal-error hook abandoned it), so hundreds of millions of executions fit in memory - an earlier thorough run with the
+    # default allocator was killed by the kernel at 64 GB.  One set at deviation 2 keeps malloc/realloc in the picture.
+    LEDGER = dict(options=["noyyalloc", "noyyrealloc", "noyyfree"], cdefs=["VF_LEDGER"])
+    for api in ("NR", "R", "C99"):
+        jobs.append(BH.make_job(api, [None], {"VF_BUDGET_DEFAULT": 2, "VF_BUDGET_TOTAL": 2, "VF_CALLMASK": 0x1fff & ~(1 << 12), "VF_MAX_OPS": 2, "VF_ACTION_PUSH": 1,
+                                              "VF_READ_ONE": 1}, "buf-malloc-%s" % api))
     full = 0x1fff & ~(1 << 12)           # everything except "new yyin" (C10)
     for api in ("NR", "R", "C99"):
         for ro in (None, 1, 2):
@@ -57,18 +64,18 @@ def run(tier):
                 kn = {"VF_BUDGET_DEFAULT": dev, "VF_BUDGET_TOTAL": dev, "VF_CALLMASK": full, "VF_MAX_OPS": dev, "VF_ACTION_PUSH": 1}
                 if ro:
                     kn["VF_READ_ONE"] = ro
-                jobs.append(BH.make_job(api, [None], kn, "buf-%s-%s%s" % (api, ro, "".join(fa)), flex_args=fa))
+                jobs.append(BH.make_job(api, [None], kn, "buf-%s-%s%s" % (api, ro, "".join(fa)), flex_args=fa, **LEDGER))
         # without an <<EOF>> rule (default termination) and with reject (state buffer follows the buffer size)
         jobs.append(BH.make_job(api, [], {"VF_BUDGET_DEFAULT": dev, "VF_BUDGET_TOTAL": dev, "VF_CALLMASK": full, "VF_MAX_OPS": dev,
-                                          "VF_READ_ONE": 2}, "buf-noeof-" + api))
+                                          "VF_READ_ONE": 2}, "buf-noeof-" + api, **LEDGER))
     jobs.append(BH.make_job("NR", [None], {"VF_BUDGET_DEFAULT": dev, "VF_BUDGET_TOTAL": dev, "VF_CALLMASK": full, "VF_MAX_OPS": dev,
-                                           "VF_READ_ONE": 3, "VF_EXPECT_FATAL": '"scanner uses yyreject"'}, "buf-reject", options=["reject"]))
+                                           "VF_READ_ONE": 3, "VF_EXPECT_FATAL": '"scanner uses yyreject"'}, "buf-reject", options=["reject"] + LEDGER["options"], cdefs=LEDGER["cdefs"]))
     # deep nesting: pushes from actions and between calls well beyond the initial stack allocation
     deep_src = [b"ab\nba" if i % 2 else b"b\naab" for i in range(40)]
     for api in ("NR", "R", "C99"):
         for depth in (9, 21, 37):
             kn = {"VF_BUDGET_DEFAULT": 0, "VF_BUDGET_TOTAL": 0, "VF_CALLMASK": (1 << 2) | (1 << 3), "VF_MAX_OPS": 200, "VF_DEEP": depth}
-            jobs.append(BH.make_job(api, [], kn, "deep%d-%s" % (depth, api), sources=deep_src))
+            jobs.append(BH.make_job(api, [], kn, "deep%d-%s" % (depth, api), sources=deep_src, **LEDGER))
     tot = dict(executions=0, tokens=0, choice_points=0, nontrivial=0, reads=0, eof_actions=0, yywraps=0, horizons=0)
     calls = [0] * 13
     for job, res in pmap(H.run_groups_job, jobs, check=ck):
